@@ -1,11 +1,131 @@
 """C13 — Paraver output is well-formed and self-consistent."""
+import os
+
 import c04
+import c07
 import emu_lib
 import emu_props
 import engine
 import vcommon
 
 PID = "C13"
+
+
+def task_type_cases(r, tabs, n):
+    """Several processes whose task types partially overlap (same label in two
+    processes, plus labels only one process has); every process runs a task of
+    each of its types, so every task-type value must be labelled in the PCF."""
+    out = []
+    pool = [b"alpha", b"beta", b"gamma", b"delta", b"eps"]
+    for i in range(n):
+        sc = c07.Scenario()
+        sc.model = r.choice(["V", "6"])
+        sc.note = "pcf-task-types"
+        nproc = r.choice([2, 2, 3])
+        sc.procs = []
+        evs = []
+        tid = 100
+        for p in range(nproc):
+            labs = r.sample(pool, r.randrange(1, 4))
+            pr = dict(pid=10 + p, appid=1 + p, rank=None, threads=[tid], labels={})
+            sc.procs.append(pr)
+            for k, lab in enumerate(labs):
+                typeid = 1 + k
+                pr["labels"][typeid] = lab
+                evs.append((pr["pid"], ("type", tid, typeid, lab)))
+            tid += 1
+        taskid = 1
+        for pr in sc.procs:
+            t = pr["threads"][0]
+            for typeid in pr["labels"]:
+                evs.append((pr["pid"], ("create", t, "c", taskid, typeid)))
+                evs.append((pr["pid"], ("task", t, "x", taskid, 0)))
+                evs.append((pr["pid"], ("task", t, "e", taskid, 0)))
+                taskid += 1
+        sc.events = evs
+        out.append(sc)
+    return out
+
+
+def breakdown_cases(r, tabs, n):
+    """`ovniemu -b`: one to three looms (each with its own virtual CPU), Nanos6
+    or nOS-V threads entering and leaving a subsystem region."""
+    from ovnitrace import Stream, i32, u64
+    out = []
+    for i in range(n):
+        model = r.choice(["nanos6", "nosv"])
+        tab = tabs[model]
+        mch = chr(tab["char"])
+        pushes = [rw for rw in tab["table"] if rw[3] == 1]
+        nlooms = r.choice([1, 2, 2, 3])
+        streams = []
+        clk = 100
+        for li in range(nlooms):
+            ncpu = r.choice([1, 2])
+            for t in range(r.choice([1, 2])):
+                s = Stream(loom="node%d" % li, pid=10 + li, tid=100 + 10 * li + t, app_id=1 + li,
+                           require={"ovni": tabs["ovni"]["version"], model: tab["version"]},
+                           cpus=[(c, c) for c in range(ncpu)] if t == 0 else None)
+                if model == "nosv":
+                    s.meta["nosv"] = {"can_breakdown": True}
+                cpu = t % ncpu if t < ncpu else -1
+                clk += 3
+                s.ev(clk, "OHx", i32(cpu, -1) + u64(0))
+                for _ in range(r.randrange(1, 4)):
+                    (c, v, ch, act, val) = r.choice(pushes)
+                    pops = [rw for rw in tab["table"] if rw[3] == 2 and rw[2] == ch and rw[4] == val]
+                    if not pops or (model in ("nosv", "nanos6") and chr(c) in "TY"):
+                        continue
+                    clk += 5
+                    s.ev(clk, mch + chr(c) + chr(v))
+                    clk += 5
+                    s.ev(clk, mch + chr(pops[0][0]) + chr(pops[0][1]))
+                clk += 4
+                s.ev(clk, "OHe")
+                streams.append(s)
+        out.append((model, streams))
+    return out
+
+
+def run_extra(res, prep, tabs, tier):
+    """task-type PCF labels and breakdown traces: files self-check."""
+    import shutil
+    from ovnitrace import Scratch, run_emu, verdict, write_trace
+    r = vcommon.rng("c13x")
+    found = False
+    n1, n2 = (60, 60) if tier == "quick" else (600, 600)
+    with Scratch("c13x") as d:
+        for k, sc in enumerate(task_type_cases(r, tabs, n1)):
+            streams, clocks, base = c07.scenario_streams(sc, tabs)
+            td = os.path.join(d, "t")
+            write_trace(td, streams)
+            rc, err = run_emu(prep.bdir, td, ["-l"])
+            v = verdict(rc, err)
+            res.case("task-types:%d:%s" % (k, sc.model) + repr(sc.events)[:2000])
+            res.dist("extra:task-types:" + v)
+            probs = emu_lib.pv_selfcheck(td) if v == "ok" else ([] if v == "reject" else ["ovniemu " + v])
+            if v == "reject":
+                probs = ["a legal multi-process task-type history was rejected: " + err[-300:]]
+            if probs:
+                found = True
+                res.violation("c13:task-types:" + probs[0][:50].replace(" ", "_"), "; ".join(probs[:3]),
+                              "model %s procs %r\nevents %r\n# %s" % (sc.model, sc.procs, sc.events, "\n# ".join(probs[:5])))
+            shutil.rmtree(td, ignore_errors=True)
+        for k, (model, streams) in enumerate(breakdown_cases(r, tabs, n2)):
+            td = os.path.join(d, "b")
+            write_trace(td, streams)
+            rc, err = run_emu(prep.bdir, td, ["-b", "-l"])
+            v = verdict(rc, err)
+            res.case("breakdown:%d:%s:%d" % (k, model, len(streams)) + "".join(s.relpath for s in streams))
+            res.dist("extra:breakdown:" + v)
+            res.dist("extra:breakdown-looms:%d" % len({s.loom for s in streams}))
+            probs = emu_lib.pv_selfcheck(td) if v == "ok" else ["ovniemu -b " + v + ": " + err[-300:]]
+            if probs:
+                found = True
+                res.violation("c13:breakdown:" + probs[0][:50].replace(" ", "_"), "; ".join(probs[:3]),
+                              "model %s streams %r\n# %s" % (model, [(s.relpath, len(s.events)) for s in streams], "\n# ".join(probs[:5])))
+            shutil.rmtree(td, ignore_errors=True)
+    return found
 
 
 def check(res, tier, replay=None):
@@ -24,6 +144,7 @@ def check(res, tier, replay=None):
         n = 450 if tier == "quick" else 6000
         cases = [emu_props.gen_mixed(r, res, tabs, p_illegal=0.08, maxlen=50) for _ in range(n)]
         found = c04.run_cases(res, prep, cases, "c13", None, post=emu_lib.pv_oracle)
+        found = run_extra(res, prep, tabs, tier) or found
         res.cov["accepted_traces_checked"] = res.cov["distribution"].get("ovniemu:ok", 0)
         for b in res.cov.get("correspondence_breaks", [])[:3]:
             proved = False
